@@ -4,8 +4,8 @@ package sctp
 
 // C01 — reliable ordered streams deliver each message exactly once, in order, intact.
 
-// C01.L5: reassembly and in-order release. Two consecutive ordered messages of 1-2
-// fragments each (DATA by SSN, I-DATA by MID), symbolic TSN/SSN/MID bases (any
+// C01.L5: reassembly and in-order release. Two consecutive ordered messages of 1-3 and
+// 1-2 fragments (DATA by SSN, I-DATA by MID), symbolic TSN/SSN/MID bases (any
 // position relative to the wrap) and symbolic payload bytes, fragments delivered in
 // every arrival order.
 func vh_C01_L5_ordered_reassembly() {
@@ -15,7 +15,10 @@ func vh_C01_L5_ordered_reassembly() {
 	ssn := nondetU16()
 	mid := nondetU32()
 	r.nextSSN, r.nextMID = ssn, mid // arbitrary history brought the cursors here
-	nf0, nf1 := 1+vPick(2), 1+vPick(2)
+	nf0, nf1 := 1+vPick(3), 1+vPick(2)
+	if nf0 == 3 {
+		nf1 = 1
+	}
 	m0 := vMakeMsg(3, iData, false, ssn, mid, base, nf0, PayloadTypeWebRTCString)
 	m1 := vMakeMsg(3, iData, false, ssn+1, mid+1, base+uint32(nf0), nf1, PayloadTypeWebRTCBinary)
 	all := append(append([]*chunkPayloadData{}, m0.chunks...), m1.chunks...)
@@ -46,5 +49,27 @@ func vh_C01_L5_ordered_reassembly() {
 		vassert(r.nextSSN == ssn+2, "cursor advanced past both messages")
 	}
 	vobserve("nf0", uint64(nf0))
+	vcover("end")
+}
+
+// C01 end to end: the two-party transfer with one or two faults (same obligation as
+// vh_C02_L1, whose delivery assertions are C01's statement).
+func vh_C01_E2E_reliable_transfer() { vh_C02_L1_reliable_transfer_one_fault() }
+
+// C01.L4b / C05.L0: the TSN tracking structure built by the real constructor for any
+// receive-buffer size can tell apart every TSN of the window it admits (two TSNs of one
+// window sharing a slot would make a never-received chunk look like a duplicate).
+func vh_C01_L4_tracking_window_capacity() {
+	buf := nondetU32()
+	want := getMaxTSNOffset(buf)
+	vassert(want >= minTSNOffset && want <= maxTSNOffset, "window between the configured limits")
+	q := newReceivePayloadQueue(want)
+	vassert(q.maxTSNOffset >= want && q.maxTSNOffset < want+64, "the admitted window is the requested one rounded up to a word")
+	vassert(uint32(len(q.tsnBitmask))*64 >= q.maxTSNOffset, "the bitmap has a slot for every TSN of the admitted window")
+	// and for an arbitrary small request
+	small := uint32(1 + vPick(200))
+	qs := newReceivePayloadQueue(small)
+	vassert(qs.maxTSNOffset >= small && uint32(len(qs.tsnBitmask))*64 >= qs.maxTSNOffset, "also for small windows")
+	vobserve("words", uint64(len(q.tsnBitmask)))
 	vcover("end")
 }
